@@ -174,22 +174,39 @@ def writer_reader(ix, R):
         src = unparse(f.node)
         w = written_keys(ix, ix.cls('taurex/data/planet.py::BasePlanet'))
         cm = ix.module('taurex/constants.py')
-        table = [('planet_mass', "self.set_planet_mass(planet_mass, 'Mjup')", 'self._mass / MJUP', 'MJUP', "conversion_factor('Mjup', 'kg')"),
-                 ('planet_radius', "self.set_planet_radius(planet_radius, 'Rjup')", 'self._radius / RJUP', 'RJUP', "conversion_factor('Rjup', 'm')"),
-                 ('planet_distance', 'self.set_planet_semimajoraxis(planet_sma or planet_distance)', 'self._distance / AU', 'AU', "conversion_factor('AU', 'm')")]
+        from sa.helpers import pos_args
+        flc = mkflow(ix, site)
+        pec = {p_: flc.tab.name(p_) for p_ in f.params()}
+
+        def ctor_calls(setter, wanted):
+            """the constructor calls self.<setter>(<wanted>), unconditionally (keyword or positional arguments)"""
+            evs = [e for e in calls(flc, setter)]
+            if len(evs) != 1:
+                return False
+            a_, kd_ = pos_args(flc, evs[0])
+            if kd_ or evs[0].guards or evs[0].loops or len(a_) != len(wanted):
+                return False
+            return all(flc.tab.equal(x_, spec(flc, w_, pec)) for x_, w_ in zip(a_, wanted))
+        table = [('planet_mass', ('set_planet_mass', ['planet_mass', "'Mjup'"]), 'self._mass / MJUP', 'MJUP', "conversion_factor('Mjup', 'kg')"),
+                 ('planet_radius', ('set_planet_radius', ['planet_radius', "'Rjup'"]), 'self._radius / RJUP', 'RJUP', "conversion_factor('Rjup', 'm')"),
+                 ('planet_distance', ('set_planet_semimajoraxis', ['planet_sma or planet_distance']), 'self._distance / AU', 'AU', "conversion_factor('AU', 'm')")]
         why = []
-        for k, ctor, wexpr, cname, cdef in table:
-            if ctor not in src:
-                why.append('constructor does not call %s' % ctor)
+        for k, (setter_, wanted_), wexpr, cname, cdef in table:
+            if not ctor_calls(setter_, wanted_):
+                why.append('constructor does not call self.%s(%s)' % (setter_, ', '.join(wanted_)))
             if k not in w or unparse(w[k]) != wexpr:
                 why.append('%s written as %s' % (k, unparse(w[k]) if k in w and w[k] is not None else None))
             if unparse(cm.aliases.get(cname)) != cdef:
                 why.append('%s = %s' % (cname, unparse(cm.aliases.get(cname))))
         for setter, attr, unit in (('set_planet_mass', '_mass', 'kg'), ('set_planet_radius', '_radius', 'm'),
                                    ('set_planet_semimajoraxis', '_distance', 'm')):
-            sf = ix.func('taurex/data/planet.py::BasePlanet.' + setter)
-            ssrc = unparse(sf.node)
-            if "factor = conversion_factor(unit, '%s')" % unit not in ssrc or 'self.%s = value * factor' % attr not in ssrc:
+            ssite = 'taurex/data/planet.py::BasePlanet.' + setter
+            sf = ix.func(ssite)
+            fls = mkflow(ix, ssite)
+            pes = param_env(fls, sf, ['value', 'unit'])
+            sts_ = [e for e in fls.of('store') if fmt(fls, e.target) == 'self.' + attr]
+            if len(sts_) != 1 or sts_[0].guards or sts_[0].loops or not fls.tab.equal(
+                    sts_[0].value, spec(fls, "value * conversion_factor(unit, '%s')" % unit, pes)):
                 why.append('%s does not store value * conversion_factor(unit, %r) in %s' % (setter, unit, attr))
         R.check('1.planet', 'TAB', site,
                 'planet mass / radius / distance: stored in SI through conversion_factor(<unit>, SI) and written divided by '
